@@ -158,6 +158,8 @@ def compare_runs(rp, rq, exempt_cfg=()):
     if rp.abort or any(k in SAFETY_KINDS for k, _ in rp.mon):
         return "vacuous"
     if rq.abort:
+        if rq.abort.startswith("unbound-variable"):
+            return {"kind": "unbound-variable", "detail": rq.abort}
         return {"kind": "abort", "detail": rq.abort}
     if set(rp.outs) != set(rq.outs):
         return {"kind": "signature", "detail": f"{sorted(rp.outs)} vs {sorted(rq.outs)}"}
